@@ -297,7 +297,7 @@ def pushdown_triggers(group, left=frozenset()):
                     if f[0] == "filter": hits |= exists_triggers(f[1], acc | in_scope(e[1]))
         if k == "bind":
             hits |= exists_triggers(e[1], acc)
-        if k in ("values", "subselect"): values_so_far = True
+        if k in ("values", "subselect") or (k not in ("bgp", "filter", "bind") and {"values", "subselect"} & set(features(e))): values_so_far = True   # at any depth of a left sibling
         first_nonfilter = False
         acc |= in_scope(e)
     return hits
